@@ -10,8 +10,15 @@ Mirrors `seqm/seqm_functions/SP2.py`, function `SP2`, **float64 branch** (`flag 
 `tr a0 = Σ x_i`, `tr a0² = Σ x_i²`, and the two branches are `x ↦ x²` and `x ↦ 2x − x²`.
 
 Statement order and floating-point operation order as in the Python (`tr` sums left to right).
-The Python loop `while notconverged.any():` has **no iteration cap**; the model takes explicit
-`fuel` and reports whether the stopping rule was met within it.
+The Python loop is `while notconverged.any() and k < SP2_MAX_ITER:` (the cap `SP2_MAX_ITER = 200`
+was added by the F4 fix; before it the loop was uncapped).  `loop`/`sp2Spectrum` take explicit
+`fuel` and report whether the stopping rule was met within it; `sp2` is the live function
+(`fuel = SP2_MAX_ITER`).  When the cap is hit the Python returns `factor * a0` exactly as when the
+rule is met: no flag, no warning.
+
+Padding (`scf_loop.make_Pnew_factory`, SP2 branch): the diagonal entries of zero-padded orbitals
+are set to the Gershgorin bound `hN` before `SP2` is called, so their scaled occupation is exactly
+`(hN − hN)/(hN − h1) = 0`, a fixed point of both branch maps.
 
 Not modelled: the float32 stopping rule (`errm0 < eps ∧ errm0 ≥ errm2`).
 -/
@@ -20,6 +27,9 @@ namespace SP2Spec
 section
 variable {α : Type} [Add α] [Sub α] [Mul α] [Div α] [OfScientific α] [OfNat α 0]
   [LT α] [DecidableLT α]
+
+/-- `SP2_MAX_ITER` of `SP2.py` -/
+def SP2_MAX_ITER : Nat := 200
 
 /-- float64 branch of the `eps` clamp: `SP2_EPS_FLOAT64_MAX = 1e-3`, `SP2_EPS_FLOAT64_MIN = 1e-7` -/
 def clampEps (eps : α) : α :=
@@ -75,6 +85,10 @@ def loop (abs : α → α) (eps nocc : α) : Nat → St α → St α × Bool
 def sp2Spectrum (abs : α → α) (eps nocc : α) (fuel : Nat) (xs : List α) : St α × Bool :=
   loop abs (clampEps eps) nocc fuel (init abs nocc xs)
 
+/-- the live `SP2(a, nocc, eps)/factor` on the occupations: the `while` is capped at `SP2_MAX_ITER` -/
+def sp2 (abs : α → α) (eps nocc : α) (xs : List α) : St α × Bool :=
+  sp2Spectrum abs eps nocc SP2_MAX_ITER xs
+
 end
 
 /-! ## driver -/
@@ -87,7 +101,10 @@ end
       `diag(λ)`: `x_i = (hN − λ_i)/(hN − h1)`, `hN = max λ`, `h1 = min λ`).
     * answer: number of loop bodies executed, `1` iff the stopping rule was met within `fuel`
       bodies (`0` = fuel exhausted, the Python would still be looping), then the diagonal of `a0`
-      on exit (the Python returns `factor * a0`). -/
+      on exit (the Python returns `factor * a0`).
+
+    `sp2_live eps nocc n x[n]` → same answer format, with `fuel = SP2_MAX_ITER` (the live
+    function: `converged = 0` means the Python left the loop through the cap). -/
 def handle (toks : List String) : Option String :=
   match toks with
   | "sp2_spectrum" :: eps :: nocc :: fuel :: n :: rest => do
@@ -98,6 +115,15 @@ def handle (toks : List String) : Option String :=
     let xs ← Util.floatList? rest
     if xs.length ≠ n then none
     let r := sp2Spectrum Float.abs eps nocc.toFloat fuel xs
+    pure (toString r.1.k ++ (if r.2 then " 1" else " 0") ++
+          (if n = 0 then "" else " " ++ Util.showFloats r.1.x))
+  | "sp2_live" :: eps :: nocc :: n :: rest => do
+    let eps ← Util.floatTok? eps
+    let nocc ← nocc.toNat?
+    let n ← n.toNat?
+    let xs ← Util.floatList? rest
+    if xs.length ≠ n then none
+    let r := sp2 Float.abs eps nocc.toFloat xs
     pure (toString r.1.k ++ (if r.2 then " 1" else " 0") ++
           (if n = 0 then "" else " " ++ Util.showFloats r.1.x))
   | _ => none
